@@ -26,6 +26,8 @@ func TestCheck(t *testing.T) {
 			"against scenario reply functions (honest, hostile limits, errors, flaps, delays/re-ordering, timeouts, omitted items, readiness flaps); " +
 			"shadow in-flight counter against the global max, sound window bound against (global qps, global burst). " +
 			"(E) deterministic carry-over cases for both strategies and both directions: hold what the limiter in effect admits, switch local<->remote (readiness flip / first granted quota q with local+q > global), admit until refused, count what is in flight at once. " +
+			"(I) one limiter with 2-4 schemas (names with case variants, '/', ':', '%', blanks, non-ASCII, 260 chars; odd cluster names / client ids; local 0, local = global, global 1, global 2^31-1): answers with items for subsets in random order, duplicate / unknown / case-variant / deleted names; gate off/on (ResetLimiter), reconfigure, delete and re-create under the same name; per-schema oracle as in (A), a re-created schema counts as never synced. " +
+			"(J) a schema switched between a global strategy and strategy local (same name and type) by spec updates a fixed number of times, concurrent with back-to-back reconcile rounds and requests, under schedule points: no panic; at quiescence strategy local => exactly local, global + one answer => the quota. " +
 			"(H) count strategy, max in flight: a fixed number of rounds in which one accepted server answer with a large limit races (swept delay) with the propagation of a global limit lowered to 1; judged only at quiescence (both returned): effective limit <= 1. " +
 			"(G) idle flows, count strategy, healthy server: traffic, 9 s without any attempt (longer than the counter's reset check), traffic again; with local << granted the instance must still be on the server-granted quota (a generous fraction is demanded). " +
 			"(F) bounded progress: healthy -> outage (error answers | acquire calls hanging beyond the 500 ms timeout | not ready | ClientFor failing) -> healthy, callers trying throughout; > 0 admissions demanded after a generous grace during the outage and from 5 s to >= 8 s after it. " +
@@ -41,15 +43,24 @@ func TestCheck(t *testing.T) {
 		countDeterministicPhase(r)
 		carryoverPhase(r)
 		racePhase(r)
+		multiPhase(r)
+		// schedule points (check.conf SCHED_FILES) perturb the interleavings of the two churn phases only: (H) depends on
+		// tight timing, everything before it is sequential, everything after it is judged on long real-time windows
+		vkit.Sched.Enable(uint64(r.Seed), 0.04, 0.02, 0.002)
 		schemaChurnPhase(r)
+		strategyChurnPhase(r)
+		vkit.Sched.Disable()
+		r.ReportSched()
 		// (D) runs next to (C): both are mostly waiting
+		// the PRNG streams of the concurrent phases are forked here, on this goroutine (Fork advances the parent)
+		hbRng, recRng, idleRng, rtRng := r.Rng.Fork("heartbeat"), r.Rng.Fork("recovery"), r.Rng.Fork("idle"), r.Rng.Fork("realtime")
 		hbDone := make(chan struct{})
-		go func() { defer close(hbDone); heartbeatPhase(r) }()
+		go func() { defer close(hbDone); heartbeatPhase(r, hbRng) }()
 		recDone := make(chan struct{})
-		go func() { defer close(recDone); recoveryPhase(r) }()
+		go func() { defer close(recDone); recoveryPhase(r, recRng) }()
 		idleDone := make(chan struct{})
-		go func() { defer close(idleDone); idlePhase(r) }()
-		realtimePhase(r)
+		go func() { defer close(idleDone); idlePhase(r, idleRng) }()
+		realtimePhase(r, rtRng)
 		<-hbDone
 		<-recDone
 		<-idleDone
@@ -59,6 +70,10 @@ func TestCheck(t *testing.T) {
 		r.Require(r.Counter("allocate_probe_local_in_effect") > 200, "the local fallback was hardly ever in effect during allocate probes")
 		r.Require(r.Counter("count_det_steps") >= 100, "too few deterministic count-strategy steps")
 		r.Require(r.Counter("carryover_cases") >= int64(r.N(20, 200)), "too few deterministic carry-over cases completed")
+		r.Require(r.Counter("multi_steps") >= int64(r.N(4000, 80000)) && r.Counter("multi_exact_quota_checks") >= 200 && r.Counter("multi_probes_remote_may_be_in_effect") >= 1000 &&
+			r.Counter("multi_gate_toggles") >= 100 && r.Counter("multi_recreates") >= 40 && r.Counter("multi_items_duplicate_name") >= 100 && r.Counter("multi_items_case_variant_of_existing") >= 50 &&
+			r.Counter("multi_boundary_local_0") >= 20 && r.Counter("multi_boundary_global_1") >= 20 && r.Counter("multi_boundary_global_maxint32") >= 20,
+			"the multi-schema phase did not exercise enough answers / gate toggles / re-creations / boundary configurations")
 		r.Require(r.Counter("race_rounds") >= int64(r.N(14000, 60000)), "too few answer-vs-reconfigure race rounds completed")
 		r.Require(r.Counter("idle_checks") >= int64(r.N(3, 10)), "too few idle-flow checks were decided")
 		r.Require(r.Counter("rec_recovery_checks") >= int64(r.N(10, 40)) && r.Counter("rec_fallback_checks") >= int64(r.N(8, 32)), "too few outage/recovery progress checks were decided")
@@ -143,15 +158,26 @@ func genAllocCfg(g *vkit.Rand) schemaCfg {
 		c.Type = "maxinflight"
 		c.G = int32(g.Range(2, 60))
 		c.L = int32(g.Range(1, int(c.G)))
-		if g.Chance(0.1) {
+		switch g.Intn(20) { // boundary configurations
+		case 0, 1:
 			c.L = c.G
+		case 2:
+			c.L = 0
+		case 3:
+			c.G, c.L = 1, int32(g.Intn(2))
 		}
 	} else {
 		c.Type = "tokenbucket"
 		c.G = int32(g.Range(50, 400))
 		c.L = int32(g.Range(20, int(c.G)))
-		c.GB = int32(g.Range(5, 80))
-		c.LB = int32(g.Range(1, int(c.GB)))
+		if g.Bool() {
+			// the shape admission accepts: burst >= qps for the local and the global bucket
+			c.GB = int32(g.Range(int(c.G), 2*int(c.G)))
+			c.LB = int32(g.Range(int(c.L), int(c.GB)))
+		} else {
+			c.GB = int32(g.Range(5, 80))
+			c.LB = int32(g.Range(1, int(c.GB)))
+		}
 	}
 	return c
 }
